@@ -86,20 +86,32 @@ static void sc_suspendF() {    // resumed by a foreign thread (outside the arena
     submit(4, 1); tg.run(Unit{4, nullptr});
     tg.wait(); waitret(1, {1, 4});
 }
+static void track_sp(void* sp) {   // the hand-shake words of a suspend point are the focus of the priority schedules (change points right after an access to them)
+    auto* p = (tbb::detail::r1::suspend_point_type*)sp; cosched::track(&p->m_stack_state); cosched::track(&p->m_is_owner_recalled); }
+static void sc_suspendF3() {   // one task suspends three times in a row on the same stack; every suspension is resumed by a foreign thread (owner recall when the arena has one slot)
+    tbb::task_group tg; for (auto& x : g_sp) x.store(nullptr);
+    submit(1, 1); tg.run(Unit{1, [] { for (int k = 0; k < 3; k++) { int u = 30 + k; TR.emit("{\"e\":\"Submit\",\"u\":%d,\"g\":2,\"s\":0}", u); TR.emit("{\"e\":\"Begin\",\"u\":%d,\"scope\":0}", u);
+        TR.emit("{\"e\":\"Suspend\",\"u\":%d}", u);
+        tbb::task::suspend([k](tbb::task::suspend_point sp) { track_sp(sp); g_sp[k].store(sp); });
+        TR.emit("{\"e\":\"Continue\",\"u\":%d}", u); TR.emit("{\"e\":\"End\",\"u\":%d}", u); } }});
+    submit(4, 1); tg.run(Unit{4, nullptr});
+    tg.wait(); waitret(1, {1, 4});
+}
+static void foreign_resumer3() { for (int k = 0; k < 3; k++) { void* p; while (!(p = g_sp[k].load())) cosched::yield_point(); for (int i = 0; i < 2; i++) cosched::yield_point(); TR.emit("{\"e\":\"Resume\",\"u\":%d}", 30 + k); tbb::task::resume((tbb::task::suspend_point)p); } }
 static void foreign_resumer() { void* p; while (!(p = g_sp[0].load())) cosched::yield_point(); TR.emit("{\"e\":\"Resume\",\"u\":1}"); tbb::task::resume((tbb::task::suspend_point)p); }
 int main(int argc, char** argv) {
     if (argc < 6) return 2;
     TR.open(argv[1]); std::string sc = argv[2]; int nseeds = atoi(argv[3]); unsigned long seed0 = strtoul(argv[4], nullptr, 10); int N = atoi(argv[5]);
     long paths = 0, steps = 0, stuck = 0; vh::Timer tm; static const int dens[8] = {1, 3, 10, 40, -1, -2, -3, -5};
     std::vector<std::pair<std::string, std::function<void()>>> all = {{"nested", sc_nested}, {"fanout", sc_fanout}, {"enqueue", sc_enqueue}, {"isolate", sc_isolate}, {"isolate2", sc_isolate2},
-        {"suspend0", [] { sc_suspend(0); }}, {"suspend1", [] { sc_suspend(1); }}, {"suspend2", sc_suspend2}, {"suspendF", sc_suspendF}};
+        {"suspend0", [] { sc_suspend(0); }}, {"suspend1", [] { sc_suspend(1); }}, {"suspend2", sc_suspend2}, {"suspendF", sc_suspendF}, {"suspendF3", sc_suspendF3}};
     for (int s = 0; s < nseeds; s++) for (auto& kv : all) {
         if (stuck >= 10) break; if (sc != "all" && sc != kv.first && !(sc == "c01" && kv.first.find("suspend") == std::string::npos && kv.first.find("isolate") != 0) && !(sc == "c20" && kv.first.find("suspend") == 0)) continue;
         if (N == 1 && (kv.first == "suspend0" || kv.first == "suspend2")) continue;   // a task that spin-waits for another task needs a second thread
-        TR.begin_exec(); memset(g_written, 0, sizeof g_written); for (auto& x : g_sp) vh::rawstore(x, (void*)nullptr);
+        cosched::untrack_all(); TR.begin_exec(); memset(g_written, 0, sizeof g_written); for (auto& x : g_sp) vh::rawstore(x, (void*)nullptr);
         TR.emit("{\"e\":\"Scenario\",\"name\":\"%s\",\"threads\":%d}", kv.first.c_str(), N);
         Result r = run_in_arena(N, seed0 + s * 7919 + paths, dens[s % 8], 30000000, [&] { kv.second(); TR.emit("{\"e\":\"Quiesce\"}"); }, true,
-                                kv.first == "suspendF" ? std::function<void()>(foreign_resumer) : std::function<void()>()); ++paths; steps += r.steps; if (r.rc) ++stuck;
+                                kv.first == "suspendF" ? std::function<void()>(foreign_resumer) : kv.first == "suspendF3" ? std::function<void()>(foreign_resumer3) : std::function<void()>()); ++paths; steps += r.steps; if (r.rc) ++stuck;
     }
     TR.close();
     printf("{\"paths\":%ld,\"steps\":%ld,\"stuck\":%ld,\"wall\":%.2f}\n", paths, steps, stuck, tm.s());
